@@ -181,8 +181,11 @@ WalkRange(s) == IF FIXED THEN LiveRange(s) ELSE s.count
 RECURSIVE Chains(_, _, _)
 Chains(s, i, hi) == IF i >= hi THEN <<>> ELSE Bk(s, i).chain \o Chains(s, i + 1, hi)
 
+\* what the driver's visit function returns at its stop-th call: any non-zero value must stop the walk and
+\* come back unchanged, so the values vary in sign and size (engine.h e_stopval)
+StopVal(k) == CASE k % 3 = 1 -> 100 + k [] k % 3 = 2 -> 0 - (100 + k) [] OTHER -> IF k % 2 = 1 THEN 1 ELSE 0 - 1
 \* the driver's visit function returns 100+stop at its stop-th call
-Cut(w, stop) == IF stop > 0 /\ stop <= Len(w) THEN [w |-> SubSeq(w, 1, stop), ret |-> 100 + stop]
+Cut(w, stop) == IF stop > 0 /\ stop <= Len(w) THEN [w |-> SubSeq(w, 1, stop), ret |-> StopVal(stop)]
                 ELSE [w |-> w, ret |-> 0]
 Visits(w) == [i \in 1..Len(w) |-> <<"v", w[i]>>]
 
@@ -276,7 +279,7 @@ FindContract(live, k, mode, x, ev, ret) ==
 WalkContract(live, stop, ev, ret) ==
     LET vs == EvIds(ev, "v") IN
     /\ NoDup(vs) /\ SeqSet(vs) \subseteq live
-    /\ IF stop > 0 /\ Len(vs) >= stop THEN Len(vs) = stop /\ ret = 100 + stop
+    /\ IF stop > 0 /\ Len(vs) >= stop THEN Len(vs) = stop /\ ret = StopVal(stop)
        ELSE ret = 0 /\ SeqSet(vs) = live
 ClearContract(live, withcb, ev) ==
     withcb => IsPermOf(EvIds(ev, "c"), live)
